@@ -11,6 +11,15 @@ MC_DF = {"module": "MC_Dataflow.tla", "cfg": "MC_Dataflow.cfg", "timeout": 900}
 # planned trees executed by the algorithm models over GF(P)[i]: a few lengths in quick, every n = 2..64 in thorough
 MC_EXECPLAN = [{"module": "MC_ExecPlan.tla", "cfg": "execplan/MC_ExecPlan_%d.cfg" % n, "xss": "1g", "timeout": 1800,
                 "thorough_only": n not in (12, 30, 37, 45)} for n in range(2, 65)]
+# the AVX kernels at vector-register granularity (Exec.tla): stage universe, and the plans of the faithful AVX planner model
+MC_EXECAVX = [{"module": "MC_ExecAvx.tla", "cfg": "MC_ExecAvx.cfg", "cfg_quick": "MC_ExecAvx_st.cfg", "xss": "1g", "timeout": 3000},
+              {"module": "MC_ExecAvx.tla", "cfg": "MC_ExecAvx_b.cfg", "xss": "1g", "timeout": 3000, "thorough_only": True},
+              {"module": "MC_ExecAvx.tla", "cfg": "MC_ExecAvx_c.cfg", "xss": "1g", "timeout": 3000, "thorough_only": True}]
+import os as _os
+_AVXN = sorted(int(f.split("_")[-1].split(".")[0]) for f in _os.listdir(_os.path.join(_os.path.dirname(_os.path.abspath(__file__)), "..", "spec", "execplan_avx")))
+MC_EXECPLANAVX = [{"module": "MC_ExecPlanAvx.tla", "cfg": "execplan_avx/MC_ExecPlanAvx_%d.cfg" % n, "xss": "1g", "timeout": 2400,
+                   "thorough_only": n not in (22, 39, 74)} for n in _AVXN if n >= 10 and n <= 128]
+MC_MULREM = {"module": "MulRem.tla", "cfg": "MulRem.cfg", "cfg_quick": "MulRem_quick.cfg", "timeout": 900, "xss": "256m"}
 MC_THR = {"module": "Threads.tla", "cfg": "MC_Threads3.cfg", "timeout": 600}
 
 APA_LOOP = [{"module": "CallLoop.tla", "init": "Init", "inv": "IndInv", "length": 0},
@@ -19,11 +28,13 @@ APA_LOOP = [{"module": "CallLoop.tla", "init": "Init", "inv": "IndInv", "length"
 APA_SCR = [{"module": "ScratchLemmas.tla", "init": "Any", "inv": "AllSuffice", "length": 0},
            {"module": "ScratchLemmas.tla", "init": "Any", "inv": "LinearGrowth", "length": 0}]
 
+APA_MULREM = [{"module": "MulRemLemma.tla", "init": "Init", "inv": "Lemma", "length": 0}]
+
 NT_PLAN = "a case is non-trivial when n >= 2 (the plan is not the trivial length-0/1 transform); distinct tuples are counted by the harness"
 
 PROPS = {
     "C01": {
-        "driver": "c01", "level": "model_checking", "mc": [MC_LAYER, MC_EXEC] + MC_EXECPLAN,
+        "apalache": APA_MULREM, "driver": "c01", "level": "model_checking", "mc": [MC_LAYER, MC_EXEC, MC_MULREM] + MC_EXECAVX + MC_EXECPLAN + MC_EXECPLANAVX,
         "rule": "every (planner kind, f32/f64, n, direction) for n = 1..N plus structured lengths is planned on the real library; each is called "
                 "through all four entry points on a dense vector (error against the double-double reference DFT, judged by TLC against Tol) and on unit "
                 "impulses (whole basis for small n; TLC checks the integer phase identity phase[k] = -+j*k mod n); " + NT_PLAN,
@@ -34,7 +45,7 @@ PROPS = {
                 "TLC evaluates err <= 16 eps log2(2n) (fixed-point log rounded up) on every completed call; " + NT_PLAN,
     },
     "C03": {
-        "apalache": APA_SCR, "driver": "c03", "mc": [MC_SCR, MC_CALL], "level": "exploration",
+        "apalache": APA_SCR + APA_MULREM, "driver": "c03", "mc": [MC_SCR, MC_CALL, MC_MULREM], "level": "exploration",
         "rule": "every (planner kind, f32/f64, n, direction, entry point, chunk count, alignment) call runs with each caller buffer flush against a PROT_NONE "
                 "page (end- and start-aligned), immutable inputs read-only, scratch exactly as advertised, plus the ill-shaped classes; any fault/abort is a Crash "
                 "event for which the specification has no transition; every case counts as non-trivial (each is a distinct memory layout)",
@@ -55,7 +66,7 @@ PROPS = {
                 "operation counts of the portable planner through a counting element type for every n (two inputs each); " + NT_PLAN,
     },
     "C06": {
-        "driver": "c06", "level": "model_checking", "mc": [MC_LAYER, MC_EXEC],
+        "driver": "c06", "level": "model_checking", "mc": [MC_LAYER, MC_EXEC] + MC_EXECAVX,
         "rule": "every (planner kind, f32/f64, n): both directions planned on one planner in either order, forward-then-inverse and inverse-then-forward "
                 "round trips against n*x, and inverse(x) against conj(forward(conj x)); " + NT_PLAN,
     },
@@ -101,7 +112,7 @@ PROPS = {
         "variants": [{"name": "default"}, {"name": "relcheck", "profile": "relcheck", "thorough_only": True}],
     },
     "C13": {
-        "driver": "c13", "level": "model_checking", "mc": [MC_LAYER],
+        "driver": "c13", "level": "model_checking", "mc": [MC_LAYER] + [m for m in MC_EXECPLANAVX if not m.get("thorough_only")],
         "rule": "harness builds per cargo feature set x run-time capability masks (H1): NewPlanner events for every planner kind x {f32,f64,custom} judged by the "
                 "Dispatch predicates; under each configuration all n = 0..N plus structured lengths are planned (C04), run with guard pages (C03) against the "
                 "reference DFT with the log bound (C01/C02) and impulse phases; " + NT_PLAN,
